@@ -55,6 +55,8 @@ pub struct ConnScript {
     pub refuse: Option<io::ErrorKind>,
     /// largest number of octets handed out by one transport read (0 = unlimited)
     pub max_read: usize,
+    /// the connection breaks for writing once this many octets were written (0 = never): BrokenPipe
+    pub wfail: usize,
     /// this peer answers only after the client's request was written completely? (informational)
     pub label: String,
 }
@@ -68,6 +70,7 @@ impl ConnScript {
             segs: VecDeque::new(),
             refuse: None,
             max_read: 0,
+            wfail: 0,
             label: String::new(),
         }
     }
@@ -86,6 +89,7 @@ pub struct ConnState {
     pub dial: Option<(String, String, u16)>,
     pub wants: usize,
     pub dropped: bool,
+    pub wfail_hit: bool,
 }
 
 #[derive(Clone, Debug, PartialEq)]
@@ -114,6 +118,8 @@ pub struct World {
     pub transport_reads: u64,
     pub max_transport_reads: u64,
     pub stalls: usize,
+    /// reactive worlds: the first connection dialled breaks for writing after this many octets (0 = never)
+    pub wfail_first: usize,
 }
 
 pub type Shared = Arc<Mutex<World>>;
@@ -135,6 +141,7 @@ impl World {
                     dial: None,
                     wants: 0,
                     dropped: false,
+                    wfail_hit: false,
                 })
                 .collect(),
             dialed: 0,
@@ -144,6 +151,7 @@ impl World {
             transport_reads: 0,
             max_transport_reads: 50_000_000,
             stalls: 0,
+            wfail_first: 0,
         }
     }
 
@@ -297,9 +305,18 @@ impl Write for Scripted {
         let c = &mut w.conns[self.ci];
         let before = c.written.len();
         life_push(if before == 0 && buf.starts_with(b"CONNECT ") { "t" } else { "w" }, self.ci + 1);
-        c.wlog.push((c.pulled, before, buf.len()));
-        c.written.extend_from_slice(buf);
-        Ok(buf.len())
+        let mut n = buf.len();
+        if c.script.wfail > 0 {
+            let room = c.script.wfail.saturating_sub(before);
+            if room == 0 && !buf.is_empty() {
+                c.wfail_hit = true;
+                return Err(io::ErrorKind::BrokenPipe.into());
+            }
+            n = n.min(room);
+        }
+        c.wlog.push((c.pulled, before, n));
+        c.written.extend_from_slice(&buf[..n]);
+        Ok(n)
     }
     fn flush(&mut self) -> io::Result<()> {
         Ok(())
@@ -325,6 +342,9 @@ pub fn install_dialer(world: &Shared) {
         if ci >= w.conns.len() && w.responder.is_some() && ci < 64 {
             let mut cs = ConnScript::new(Vec::new());
             cs.close_at_end = false;
+            if ci == 0 {
+                cs.wfail = w.wfail_first;
+            }
             let mut nw = World::new(vec![cs], vec![]);
             w.conns.push(nw.conns.remove(0));
         }
